@@ -7,7 +7,7 @@ for mp in sorted(glob.glob(f"{V}/seeded/*/meta.json")):
     m = json.load(open(mp))
     suite = m["confirmed_by_lead"].get("suite")
     s = suite if isinstance(suite, str) else f"stable_not_passed={suite.get('stable_not_passed')}"
-    rows.append(f"| {m['seed']} | {m['property']} | {m['needs_to_manifest'][:230]} | {m['detected_by'][:260]} | demo 0→1; suite: {s[:60]} |")
+    rows.append(f"| {m['seed']} | {m['property']} | {m['needs_to_manifest'][:230]} | {m['detected_by'][:260]} | demo 0→1; suite: {s[:110]} |")
 table = "| seed | property | what it needs to manifest | caught by | confirmation |\n|---|---|---|---|---|\n" + "\n".join(rows)
 d = open(f"{V}/DESIGN.md").read()
 a, b = "<!-- SEED-TABLE:BEGIN -->", "<!-- SEED-TABLE:END -->"
